@@ -183,6 +183,12 @@ impl Module {
         self.imports.push(import);
     }
 
+    /// Remove every import declaration that names `from_module` as its source
+    fn remove_imports_from(&mut self, from_module: &str) {
+        self.imports
+            .retain(|import| import.from_module != from_module);
+    }
+
     /// Check if this module exports a rule (including re-exports)
     pub fn exports_rule(&self, rule_name: &str) -> bool {
         // Check if it's an owned rule
@@ -383,6 +389,12 @@ impl ModuleManager {
         self.import_graph.remove(name);
         for imports in self.import_graph.values_mut() {
             imports.remove(name);
+        }
+
+        // Drop the import declarations of the remaining modules that name the deleted module,
+        // so that declarations and import graph keep describing the same relation
+        for module in self.modules.values_mut() {
+            module.remove_imports_from(name);
         }
 
         Ok(())
